@@ -11,6 +11,10 @@
 (*           not it verifies: signed TSIG error responses chain on its MAC too *)
 (*   env     the next envelope of the session (SignEnv / VerifyEnv of Tsig):   *)
 (*           request MAC and timers-only come from the session state           *)
+(*   cw      a client connection (dns.Conn) writes a request: ConnWrite; the   *)
+(*           line emitted says what a REQUEST's MAC covers (noted, not judged) *)
+(*   cr      the connection reads a message: ConnReadDigest -- the request MAC *)
+(*           of the transaction, full variables, state unchanged by the read   *)
 EXTENDS Tsig, TraceBase, GenBase
 
 VARIABLES l, s      \* cursor; session state [prev, timers]
@@ -45,6 +49,13 @@ Step ==
               LET d == EnvDigest(s, e.octets) IN
               /\ Emit(Line(e, s, d, e.now))
               /\ s' = IF d.st = "ok" THEN d.next ELSE s
+         [] e.ev = "cw" ->
+              /\ Emit(Line(e, s, ConnRequestDigest(e.octets), e.now))
+              /\ s' = ConnWrite(s, e.octets)
+         [] e.ev = "cr" ->
+              /\ Emit(Line(e, s, ConnReadDigest(s, e.octets), e.now))
+              /\ s' = s
+         [] e.ev = "open" -> s' = ConnOpen
          [] OTHER -> MarkBad(l) /\ s' = s
 
 Next == /\ l <= Len(Trace)
